@@ -73,6 +73,11 @@ def run(ctx):
     open(cfgk, "w").write(open(os.path.join(vf.SPEC, "MC_Bracket.cfg")).read().replace("N = 10 GL = 3", "N = 10 GL = 3" if ctx.quick() else "N = 13 GL = 4"))
     ctx.mc("MC_Bracket", cfgk, timeout=2400, workers=8,
            need_actions=("NEvalA", "NEvalB", "NEvalC", "NInsideLow", "NInsideHigh", "NInsideUndecided", "NGolden", "NOutsideShift", "NOutsideMore", "NExtra", "NExit"))
+    # unbounded: the inductive invariant of Bracket.tla for every abscissa and every value whatsoever (TLAPS, 41 obligations)
+    okp, nobl, outp = vf.tlaps("Bracket_Proof", ctx.work)
+    if not okp:
+        raise vf.EngineError("TLAPS did not prove spec/proofs/Bracket_Proof.tla:\n" + outp[-2000:])
+    ctx.notes.append("TLAPS: all %d obligations of proofs/Bracket_Proof.tla proved (the bracketing phase keeps its invariant and returns a bracketing triple for every objective)" % nobl)
     for mode, module, marker, label in (("bracket", "Trace_Bracket", '"BStart"', "bracketing phase (hook Verif_Bracket)"),
                                         ("findmin", "Trace_FindMin", '"MStart"', "Find_Minimum/Find_Maximum, whole executions")):
         btrace = os.path.join(ctx.work, mode + ".ndjson")
